@@ -334,7 +334,12 @@ def plan(ctx):
         else:
             wide_ok = {1, 2, 3, 7, 19, 50} if N * D < 100000 else {1, 2, 3, 10}
         for n in counts:
-            for desc, ps, dflt in subsets(rng, name, N, ctx.quick):
+            subs = subsets(rng, name, N, ctx.quick)
+            if name == "viirs" and not ctx.quick:
+                # 32 lines per scan make every VIIRS case expensive in Coq: full + sorted + one rotating kind per count
+                rest = subs[2:]
+                subs = subs[:2] + [rest[n % len(rest)]]
+            for desc, ps, dflt in subs:
                 if desc == "full" and n not in wide_ok:
                     continue
                 if name in SWATH and desc not in ("full",) and len(ps) < 1:
